@@ -817,7 +817,11 @@ class Gen:
                    f"void odd_un_{n}(OddU{n} u);", f"void odd_vp_{n}(void *p, const void *q);",
                    f"template<class X> X odd_tmpl_{n}(X x);", f"long double odd_ld_{n}(long double x);",
                    f"wchar_t odd_wc_{n}(wchar_t c);"]
-            for line in r.sample(odd[1:], r.randrange(3, len(odd) - 1)):
+            pick = r.sample(odd[1:], r.randrange(3, len(odd) - 1))
+            if self.oddities == "nofwd":
+                # an incomplete type that no library defines cannot be resolved by a python-native module at import
+                pick = [x for x in pick if f"Fwd{n}" not in x]
+            for line in pick:
                 if f"Fwd{n}" in line and odd[0] not in self.h:
                     self.h.append(odd[0])
                 if f"OddU{n}" in line and odd[8] not in self.h and not line.startswith("union"):
